@@ -353,6 +353,65 @@ fn main() {
             std::env::set_var("SEQ_NO_LEAK_RERUN", "1");
             supervise(prefix);
         }
+        Some("longdoc") => {
+            // oracle-only stream of very long documents (more entries than any plausible pre-sizing or
+            // growth threshold of the tables): `seq longdoc <tier> <seed> <prefix>`.  Every accepted
+            // object gets the C15 self-consistency sweep (each listed string is found under a key that
+            // resolves back to it).
+            let tier = &args[2];
+            let seed: u64 = args[3].parse().unwrap();
+            let prefix = &args[4];
+            let mut rng = harness::Rng::new(seed ^ 0x10d0c);
+            let mut lines: Vec<String> = Vec::new();
+            let sizes: Vec<usize> = if tier == "thorough" { vec![1500, 7300, 9000, 15000, 30000, 70000] } else { vec![7300, 9000, 15000] };
+            let hashers: Vec<&str> = if tier == "thorough" { vec!["fnv1a", "topBitsConst"] } else { vec!["fnv1a"] };
+            for h in hashers {
+                for kind in ["reader", "rodeo", "resolver", "threaded"] {
+                    lines.push(format!("case spur {h}"));
+                    lines.push("pool".into());
+                    let mut slot = 0;
+                    for &n in &sizes {
+                        if h != "fnv1a" && n > 9000 {
+                            continue;
+                        }
+                        let tagged = rng.below(1000);
+                        let strs: Vec<String> = (0..n).map(|i| harness::hex(format!("s{tagged}-{i}{}", if i % 7 == 0 { "-longer-tail" } else { "" }).as_bytes())).collect();
+                        let doc = if kind == "threaded" {
+                            // a dense map, entries in a scrambled order
+                            let mut e: Vec<String> = strs.iter().enumerate().map(|(i, s)| format!("{s}={}", i + 1)).collect();
+                            let k = e.len();
+                            for i in 0..k {
+                                let j = rng.below(k as u64) as usize;
+                                e.swap(i, j);
+                            }
+                            e.join(",")
+                        } else {
+                            strs.join(",")
+                        };
+                        lines.push(format!("de {kind} {slot} {doc}"));
+                        lines.push(format!("len {slot}"));
+                        // a few lookups of early, middle and late entries, and of an absent string
+                        for i in [0, 1, n / 2, n - 1] {
+                            lines.push(format!("get {slot} {}", strs[i]));
+                            lines.push(format!("tryResolve {slot} {i}"));
+                        }
+                        lines.push(format!("get {slot} {}", harness::hex(b"absent-string")));
+                        if kind != "resolver" && kind != "threaded" {
+                            // the same list with one late repeat: must be refused (or at least stay consistent)
+                            let mut l2 = strs.clone();
+                            let at = n - 1 - rng.below(50) as usize;
+                            l2[at] = strs[3].clone();
+                            lines.push(format!("de {kind} {} {}", slot + 1, l2.join(",")));
+                        }
+                        lines.push(format!("drop {slot}"));
+                        slot += 2;
+                    }
+                }
+            }
+            std::fs::write(format!("{prefix}.ops"), lines.join("\n") + "\n").unwrap();
+            std::env::set_var("SEQ_NO_LEAK_RERUN", "1");
+            supervise(prefix);
+        }
         Some("run") => {
             let profile = &args[2];
             let tier = &args[3];
